@@ -77,9 +77,9 @@ func runCTwin(c *ctx) error {
 	if err != nil {
 		return err
 	}
-	n := 150
+	n := 450
 	if c.thorough() {
-		n = 4000
+		n = 6000
 	}
 	hist := map[string]int{}
 	for i := 0; i < n; i++ {
